@@ -448,6 +448,285 @@ Definition run_varint_read (bs : bytes) : string :=
   | None => out3 impl "ERR" "-"
   end.
 
+(* ------------------------------------------------------------------ *)
+(* tx.mutate <tx bytes> <step>*   — call history on ONE Transaction object.
+   The object is observed (get_id_hex, get_size, to_bytes, version, lock time, counts, is_coinbase, outpoints,
+   satoshis_out; flags: get_id_bytes agrees with get_id_hex, every accessor equals that of a freshly parsed copy of
+   the current bytes) right after parsing, a second time, on a clone, after every step, and finally on a clone.
+   Steps (fields separated by `,`):
+     sv,n / sl,n      set_version / set_nlocktime, keep using the object      svc,n / slc,n   ... keep using the returned clone
+     ai|pi,id,vout,script,seq|-        add_input / prepend_input (TxIn::new)
+     ii|si,k,id,vout,script,seq|-      insert_input(k, ..) / set_input(k, ..)
+     ao|po,value,script                add_output / prepend_output;   io|so,k,value,script   insert_output / set_output
+     gi,k,field,value                  get_input(k); setter; set_input(k, ..)  with field in
+                                       id (set_prev_tx_id) vo (set_vout) sq (set_sequence) us (set_unlocking_script)
+                                       sa (set_satoshis) ls (set_locking_script)
+     cl                                continue on a clone;    ob   observe once more
+   impl: the mutators of Model/Tx.v + Model/TxExt.v on the parsed value; spec: the same edits on the decoder's raw field
+   tuple, every observation computed from the encoding of that tuple (what a fresh parse of the new bytes reports). *)
+Inductive step :=
+| SSetVer (v : N) | SSetLt (v : N)
+| SIn (how : nat) (k : nat) (f : in_fields) (sq : option N)      (* how: 0 add, 1 prepend, 2 insert, 3 set *)
+| SOut (how : nat) (k : nat) (f : out_fields)
+| SGetNum (k : nat) (field : nat) (v : N)                        (* 0 vout, 1 sequence, 2 satoshis *)
+| SGetBytes (k : nat) (field : nat) (v : bytes)                  (* 0 prev id, 1 unlocking script, 2 locking script *)
+| SNop.
+
+Definition dec_u32 (a : string) : option N :=
+  match N_of_dec a with Some n => if (n <? 4294967296)%N then Some n else None | None => None end.
+Definition dec_u64 (a : string) : option N :=
+  match N_of_dec a with Some n => if (n <? u64lim)%N then Some n else None | None => None end.
+Definition dec_idx (a : string) : option nat :=
+  match N_of_dec a with Some n => if (n <? 100000)%N then Some (N.to_nat n) else None | None => None end.
+Definition dec_seq (a : string) : option (option N) :=
+  if String.eqb a "-" then Some None else option_map Some (dec_u32 a).
+Definition mk_in_step (how k : nat) (a b c d : string) : option step :=
+  match expand a, dec_u32 b, expand c, dec_seq d with
+  | Some id, Some vo, Some sc, Some sq => Some (SIn how k (mk_in id vo sc (match sq with Some v => v | None => 4294967295%N end)) sq)
+  | _, _, _, _ => None
+  end.
+Definition mk_out_step (how k : nat) (a b : string) : option step :=
+  match dec_u64 a, expand b with Some v, Some sc => Some (SOut how k (mk_out v sc)) | _, _ => None end.
+
+Definition parse_step (st : string) : option step :=
+  match split "," st with
+  | ["sv"; n] | ["svc"; n] => option_map SSetVer (dec_u32 n)
+  | ["sl"; n] | ["slc"; n] => option_map SSetLt (dec_u32 n)
+  | ["ai"; a; b; c; d] => mk_in_step 0 0 a b c d
+  | ["pi"; a; b; c; d] => mk_in_step 1 0 a b c d
+  | ["ii"; k; a; b; c; d] => match dec_idx k with Some k' => mk_in_step 2 k' a b c d | None => None end
+  | ["si"; k; a; b; c; d] => match dec_idx k with Some k' => mk_in_step 3 k' a b c d | None => None end
+  | ["ao"; a; b] => mk_out_step 0 0 a b
+  | ["po"; a; b] => mk_out_step 1 0 a b
+  | ["io"; k; a; b] => match dec_idx k with Some k' => mk_out_step 2 k' a b | None => None end
+  | ["so"; k; a; b] => match dec_idx k with Some k' => mk_out_step 3 k' a b | None => None end
+  | ["gi"; k; fld; v] =>
+      match dec_idx k with
+      | None => None
+      | Some k' =>
+          if String.eqb fld "vo" then option_map (SGetNum k' 0) (dec_u32 v)
+          else if String.eqb fld "sq" then option_map (SGetNum k' 1) (dec_u32 v)
+          else if String.eqb fld "sa" then option_map (SGetNum k' 2) (dec_u64 v)
+          else if String.eqb fld "id" then option_map (SGetBytes k' 0) (expand v)
+          else if String.eqb fld "us" then option_map (SGetBytes k' 1) (expand v)
+          else if String.eqb fld "ls" then option_map (SGetBytes k' 2) (expand v)
+          else None
+      end
+  | ["cl"] | ["ob"] => Some SNop
+  | _ => None
+  end.
+Fixpoint parse_steps (l : list string) : option (list step) :=
+  match l with
+  | [] => Some []
+  | x :: r => match parse_step x, parse_steps r with Some s, Some rs => Some (s :: rs) | _, _ => None end
+  end.
+
+(* implementation side.  None = the step does not fit the object (index out of range): BADARG on both sides *)
+Definition apply_m (t : tx) (s : step) : option (outcome tx) :=
+  match s with
+  | SSetVer v => Some (Ok (tx_set_version t v))
+  | SSetLt v => Some (Ok (tx_set_nlocktime t v))
+  | SIn how k f sq =>
+      let n := length (inputs t) in
+      if (match how with 2 => Nat.leb k n | 3 => Nat.ltb k n | _ => true end) then
+        Some (do scr <- (if is_coinbase_outpoint (f_prev f) (f_vout f) then Ok [BCoinbase (f_script f)] else from_bytes (f_script f));
+              let i := txin_new (f_prev f) (f_vout f) scr sq in
+              match how with
+              | 0 => Ok (add_input t i) | 1 => Ok (prepend_input t i) | 2 => insert_input t k i | _ => tx_set_input t k i
+              end)
+      else None
+  | SOut how k f =>
+      let n := length (outputs t) in
+      if (match how with 2 => Nat.leb k n | 3 => Nat.ltb k n | _ => true end) then
+        Some (do scr <- from_bytes (f_pk f);
+              let o := txout_new (f_value f) scr in
+              match how with
+              | 0 => Ok (add_output t o) | 1 => Ok (prepend_output t o) | 2 => insert_output t k o | _ => tx_set_output t k o
+              end)
+      else None
+  | SGetNum k fld v =>
+      match tx_get_input t k with
+      | None => None
+      | Some i => Some (tx_set_input t k (match fld with 0 => txin_set_vout i v | 1 => txin_set_sequence i v | _ => txin_set_satoshis i v end))
+      end
+  | SGetBytes k fld v =>
+      match tx_get_input t k with
+      | None => None
+      | Some i =>
+          Some (match fld with
+                | 0 => tx_set_input t k (txin_set_prev_tx_id i v)
+                | 1 => do scr <- from_bytes v; tx_set_input t k (txin_set_unlocking_script i scr)
+                | _ => do scr <- from_bytes v; tx_set_input t k (txin_set_locking_script i scr)
+                end)
+      end
+  | SNop => Some (Ok t)
+  end.
+
+(* specification side: the same edit on the raw field tuple *)
+Definition ins_at {A} (l : list A) (k : nat) (x : A) : list A := firstn k l ++ x :: skipn k l.
+Definition put_at {A} (l : list A) (k : nat) (x : A) : list A := firstn k l ++ x :: skipn (S k) l.
+Definition apply_s (f : tx_fields) (s : step) : option tx_fields :=
+  match s with
+  | SSetVer v => Some (mk_fields v (f_ins f) (f_outs f) (f_locktime f))
+  | SSetLt v => Some (mk_fields (f_version f) (f_ins f) (f_outs f) v)
+  | SIn how k i _ =>
+      let n := length (f_ins f) in
+      match how with
+      | 0 => Some (mk_fields (f_version f) (f_ins f ++ [i]) (f_outs f) (f_locktime f))
+      | 1 => Some (mk_fields (f_version f) (i :: f_ins f) (f_outs f) (f_locktime f))
+      | 2 => if Nat.leb k n then Some (mk_fields (f_version f) (ins_at (f_ins f) k i) (f_outs f) (f_locktime f)) else None
+      | _ => if Nat.ltb k n then Some (mk_fields (f_version f) (put_at (f_ins f) k i) (f_outs f) (f_locktime f)) else None
+      end
+  | SOut how k o =>
+      let n := length (f_outs f) in
+      match how with
+      | 0 => Some (mk_fields (f_version f) (f_ins f) (f_outs f ++ [o]) (f_locktime f))
+      | 1 => Some (mk_fields (f_version f) (f_ins f) (o :: f_outs f) (f_locktime f))
+      | 2 => if Nat.leb k n then Some (mk_fields (f_version f) (f_ins f) (ins_at (f_outs f) k o) (f_locktime f)) else None
+      | _ => if Nat.ltb k n then Some (mk_fields (f_version f) (f_ins f) (put_at (f_outs f) k o) (f_locktime f)) else None
+      end
+  | SGetNum k fld v =>
+      match nth_error (f_ins f) k with
+      | None => None
+      | Some i =>
+          let i' := match fld with 0 => mk_in (f_prev i) v (f_script i) (f_seq i) | 1 => mk_in (f_prev i) (f_vout i) (f_script i) v | _ => i end in
+          Some (mk_fields (f_version f) (put_at (f_ins f) k i') (f_outs f) (f_locktime f))
+      end
+  | SGetBytes k fld v =>
+      match nth_error (f_ins f) k with
+      | None => None
+      | Some i =>
+          let i' := match fld with 0 => mk_in v (f_vout i) (f_script i) (f_seq i) | 1 => mk_in (f_prev i) (f_vout i) v (f_seq i) | _ => i end in
+          Some (mk_fields (f_version f) (put_at (f_ins f) k i') (f_outs f) (f_locktime f))
+      end
+  | SNop => Some f
+  end.
+(* the scripts the driver has to build from the step's arguments *)
+Definition step_class (s : step) : sclass :=
+  match s with
+  | SIn _ _ i _ => in_class i
+  | SOut _ _ o => classify (f_pk o)
+  | SGetBytes _ 1 v | SGetBytes _ 2 v => classify v
+  | _ => SGood
+  end.
+
+Definition in_fields_eqb (a b : in_fields) : bool :=
+  bytes_eqb (f_prev a) (f_prev b) && (f_vout a =? f_vout b)%N && bytes_eqb (f_script a) (f_script b) && (f_seq a =? f_seq b)%N.
+Definition out_fields_eqb (a b : out_fields) : bool := (f_value a =? f_value b)%N && bytes_eqb (f_pk a) (f_pk b).
+Fixpoint list_eqb {A} (e : A -> A -> bool) (a b : list A) : bool :=
+  match a, b with [], [] => true | x :: a', y :: b' => e x y && list_eqb e a' b' | _, _ => false end.
+Definition raw_in (i : txin) : in_fields := mk_in (prev_tx_id i) (vout i) (to_bytes (unlocking i)) (sequence i).
+Definition raw_out (o : txout) : out_fields := mk_out (value o) (to_bytes (script_pub_key o)).
+Definition same_raw (a b : tx) : bool :=
+  (version a =? version b)%N && (locktime a =? locktime b)%N
+  && list_eqb in_fields_eqb (map raw_in (inputs a)) (map raw_in (inputs b))
+  && list_eqb out_fields_eqb (map raw_out (outputs a)) (map raw_out (outputs b)).
+
+(* one observation of the implementation model; returns the text and (bytes, hash) for sharing with the spec side *)
+Definition observe_m (t : tx) : string * bytes * bytes :=
+  let b := tx_bytes t in
+  let h := sha256d b in
+  let fresh := match tx_from_bytes b with
+               | Ok t' => if bytes_eqb (tx_bytes t') b && same_raw t' t then "1" else "0"
+               | _ => "x" end in
+  (hex_of_bytes (rev h) +++ "," +++ dec_of_N (tx_size t) +++ "," +++ show_bytes b +++ "," +++ dec_of_N (version t) +++ ","
+   +++ dec_of_N (locktime t) +++ "," +++ dec_of_N (N.of_nat (length (inputs t))) +++ "," +++ dec_of_N (N.of_nat (length (outputs t))) +++ ","
+   +++ bit01 (tx_is_coinbase t) +++ "," +++ show_long (cat_map (fun o => hex_of_bytes o +++ "/") (tx_outpoints t)) +++ ","
+   +++ show_sat (satoshis_out true t) +++ ",1" +++ fresh, b, h).
+Definition observe_s (f : tx_fields) (mb mh : bytes) : string :=
+  let enc := encode_tx_spec f in
+  let h := if bytes_eqb enc mb then mh else sha256d enc in
+  hex_of_bytes (rev h) +++ "," +++ dec_of_N (N.of_nat (length enc)) +++ "," +++ show_bytes enc +++ "," +++ dec_of_N (f_version f) +++ ","
+  +++ dec_of_N (f_locktime f) +++ "," +++ dec_of_N (N.of_nat (length (f_ins f))) +++ "," +++ dec_of_N (N.of_nat (length (f_outs f))) +++ ","
+  +++ bit01 (spec_is_coinbase f) +++ "," +++ show_long (cat_map (fun o => hex_of_bytes o +++ "/") (spec_outpoints f)) +++ ","
+  +++ dec_of_N (spec_total_out f) +++ ",11".
+
+(* a field tuple about which the property speaks: 32-byte ids, scripts that are scripts, total below 2^64 *)
+Definition tuple_ok (f : tx_fields) : bool :=
+  forallb (fun i => Nat.eqb (length (f_prev i)) 32) (f_ins f)
+  && match fields_class f with SGood => true | _ => false end
+  && (spec_total_out f <? u64lim)%N.
+
+Inductive hrun := HBad | HStop (out : string) | HDone (obs : list string) (last : tx) (lb lh : bytes).
+Fixpoint run_m (t : tx) (l : list step) (acc : list (string * bytes * bytes)) : option (outcome (list (string * bytes * bytes))) :=
+  match l with
+  | [] => Some (Ok (rev acc))
+  | s :: r =>
+      match apply_m t s with
+      | None => None
+      | Some (Ok t') => run_m t' r (observe_m t' :: acc)
+      | Some Err => Some Err
+      | Some Panic => Some Panic
+      end
+  end.
+Fixpoint run_s (f : tx_fields) (l : list step) (ms : list (string * bytes * bytes)) (acc : list string) (ok : bool) : option (list string * bool) :=
+  match l, ms with
+  | [], _ => Some (rev acc, ok)
+  | s :: r, (_, mb, mh) :: ms' =>
+      match apply_s f s with
+      | None => None
+      | Some f' => run_s f' r ms' (observe_s f' mb mh :: acc) (ok && tuple_ok f')
+      end
+  | s :: r, [] =>
+      match apply_s f s with
+      | None => None
+      | Some f' => run_s f' r [] (observe_s f' [] [] :: acc) (ok && tuple_ok f')
+      end
+  end.
+
+Definition run_tx_mutate (args : list string) : string :=
+  match args with
+  | a :: rest =>
+      match expand a, parse_steps rest with
+      | Some bs, Some steps =>
+          let r0 := tx_from_bytes bs in
+          let m := match r0 with
+                   | Ok t => let o0 := observe_m t in
+                             match run_m t steps [] with
+                             | None => None
+                             | Some (Ok obs) => Some (Ok (o0, obs))
+                             | Some Err => Some Err
+                             | Some Panic => Some Panic
+                             end
+                   | Err => Some Err | Panic => Some Panic end in
+          match m with
+          | None => "BADARG"
+          | Some mo =>
+              let render (o0 : string) (obs : list string) : string :=
+                let lastobs := last obs o0 in
+                "OK:" +++ o0 +++ ";" +++ o0 +++ ";" +++ o0 +++ cat_map (fun o => ";" +++ o) obs +++ ";" +++ lastobs in
+              let impl := match mo with
+                          | Ok (o0, obs) => render (fst (fst o0)) (map (fun x => fst (fst x)) obs)
+                          | Err => "ERR" | Panic => "PANIC" end in
+              let mobs := match mo with Ok (o0, obs) => o0 :: obs | _ => [] end in
+              match decode_tx_spec bs with
+              | None => out3 impl "ERR" "-"
+              | Some d =>
+                  let f0 := d_fields d in
+                  let cls := fold_right (fun s c => join_class (step_class s) c) (fields_class f0) steps in
+                  match cls with
+                  | SBad => out3 impl "ERR" "-"
+                  | STrunc => out3 impl "ERR" "truncated-direct-push"
+                  | SGood =>
+                      match mobs with
+                      | [] => out3 impl "-" "-"
+                      | (_, b0, h0) :: mrest =>
+                          match run_s f0 steps mrest [] (tuple_ok f0) with
+                          | None => "BADARG"
+                          | Some (sobs, ok) =>
+                              (* a non-canonical initial encoding may be rejected; otherwise every observation is the fresh-parse one *)
+                              if ok then out3 impl ((if canonical bs then "" else "ERR~") +++ render (observe_s f0 b0 h0) sobs) "-"
+                              else out3 impl "-" "-"
+                          end
+                      end
+                  end
+              end
+          end
+      | _, _ => "BADARG"
+      end
+  | [] => "BADARG"
+  end.
+
 Definition with_bytes (a : string) (f : bytes -> string) : string :=
   match expand a with Some bs => f bs | None => "BADARG" end.
 Definition with_u64 (a : string) (f : N -> string) : string :=
@@ -459,6 +738,7 @@ Definition run (op : string) (args : list string) : string :=
   | "tx.build", _ => run_tx_build args
   | "tx.build_ext", _ => run_tx_build_ext args
   | "tx.build_alt", _ => run_tx_build_alt args
+  | "tx.mutate", _ => run_tx_mutate args
   | "txin.parse", [a] => with_bytes a run_txin_parse
   | "txout.parse", [a] => with_bytes a run_txout_parse
   | "txin.outpoint", [a] => with_bytes a run_txin_outpoint
